@@ -46,6 +46,9 @@ func selftestInline() (msg string, ok bool) {
 		sites += len(l)
 		log = append(log, l...)
 	}
+	if lf := os.Getenv("SCALINT_SELFTEST_LOG"); lf != "" {
+		os.WriteFile(lf, []byte(strings.Join(log, "\n")+"\n"), 0o644)
+	}
 	if sites < inlineFixtureSites {
 		return fmt.Sprintf("only %d call sites inlined in the fixture, expected at least %d: %v", sites, inlineFixtureSites, log), false
 	}
